@@ -9,6 +9,13 @@ REJECTED = {"b8_roll"}  # straddling bit-field: must be refused at definition ti
 CHEAP_PARTNERS = ["u8", "u32", "i24"]
 
 
+ALIGN16 = {"i128", "u128"}
+
+
+def _dynamic(k):
+    return k in ("uleb", "ileb", "dyn") or k.startswith(("d_", "z_"))
+
+
 def singles(endians=("<", ">"), aligns=(False, True), kinds=None):
     out = []
     for k in kinds or KINDS:
@@ -34,6 +41,8 @@ def pairs(alphabet, endians=("<", ">"), aligns=(False, True), skip_heavy_aligned
                 for al in aligns:
                     if skip_heavy_aligned and al and (a_ in HEAVY or b_ in HEAVY):
                         continue
+                    if skip_heavy_aligned and al and ((a_ in ALIGN16 and _dynamic(b_)) or (b_ in ALIGN16 and _dynamic(a_))):
+                        continue  # 16-way padding split after a member of symbolic length: near the per-case budget, thorough tier only
                     out.append(Program([a_, b_], e, al))
     return out
 
@@ -82,7 +91,7 @@ def reduced_programs(seed=0, sample=24):
                 ps.append(Program([a_, b_], "<>"[i % 2], al))
                 i += 1
     light = [k for k in KINDS if k not in HEAVY and k not in REJECTED and k not in EOF_KINDS]
-    ps += sample_programs(light, sample, 3, 4, seed)
+    ps += [p for p in sample_programs(light, sample, 3, 4, seed) if _quick_ok(p)]
     return dedupe(ps)
 
 
@@ -93,7 +102,7 @@ def quick_programs(seed=0, sample=40):
     for i, p in enumerate(pairs(QUICK, endians=("<",), skip_heavy_aligned=True)):
         ps.append(p if (i // 2) % 2 == 0 else Program(p.kinds, ">", p.align))
     light = [k for k in KINDS if k not in HEAVY and k not in REJECTED and k not in EOF_KINDS]
-    ps += sample_programs(light, sample, 3, 4, seed)
+    ps += [p for p in sample_programs(light, sample, 3, 4, seed) if _quick_ok(p)]
     return dedupe(ps)
 
 
@@ -112,6 +121,18 @@ def thorough_programs(seed=0, sample=300):
     light = [k for k in KINDS if k not in HEAVY and k not in REJECTED and k not in EOF_KINDS]
     ps += sample_programs(light, sample, 3, 6, seed)
     return dedupe(ps)
+
+
+LEB_KINDS = {"uleb", "ileb", "z_uleb"}
+
+
+def _quick_ok(p):
+    """Quick tier: leave out sampled sequences whose symbolic run is known to exceed the per-case budget (aligned
+    definitions with a LEB128 member among three or more kinds: the padding after a value of symbolic length is split
+    into up to 16 cases per later member). They stay in the thorough tier."""
+    if p.align and any(k in ALIGN16 for k in p.kinds) and any(_dynamic(k) for k in p.kinds):
+        return False
+    return not (p.align and len(p.kinds) > 2 and any(k in LEB_KINDS for k in p.kinds))
 
 
 def dedupe(ps):
